@@ -19,7 +19,8 @@
 (* with the operators of AppMonOps, the same ones AppMonTrace.tla applies to *)
 (* recorded executions.                                                      *)
 (* Defects: "max_allowed" (min -> max), "lifo_wrong_end", "no_deduct",       *)
-(* "ignore_suspended", "create_and_delete", "overfill" - model mutants.      *)
+(* "ignore_suspended", "create_and_delete", "overfill" - model mutants;      *)
+(* "quiet_suspend" - mutant of the published bookkeeping (extension below).  *)
 EXTENDS AppMonOps, TLC
 
 CONSTANTS AppSeq,      \* sequence of application names
@@ -35,7 +36,9 @@ TOK == 3600
 Apps == {AppSeq[i] : i \in DOMAIN AppSeq}
 Init == st = [now |-> 0, mon |-> EmptyFn, susp |-> EmptyFn,
               view |-> [a \in Apps |-> {}], pend |-> [a \in Apps |-> [create |-> 0, delete |-> {}]],
-              nextid |-> 1, steps |-> 0]
+              nextid |-> 1, steps |-> 0,
+              pub |-> EmptyFn,      \* extension: the map stored in the /app-monitors node
+              lastw |-> EmptyFn]    \* extension: `last_waited`, what the last reevaluate() returned
 
 Step(s) == [s EXCEPT !.steps = @ + 1]
 More == st.steps < MaxSteps
@@ -114,7 +117,17 @@ EvalApp(a, o) ==
               ELSE m,
       fail |-> alw > 0 /\ o \in Failing,
       pcreate |-> IF alw > 0 /\ o = "ok" THEN alw ELSE 0,
-      pdelete |-> IF del /\ o = "ok" THEN gone ELSE {}]
+      pdelete |-> IF del /\ o = "ok" THEN gone ELSE {},
+      (* extension (bookkeeping): rate limited => estimated wake-up time         *)
+      (* `now + int((1 - available) / rate)`, else -1                            *)
+      wait |-> IF act /\ needed > 0 /\ alw <= 0
+               THEN st.now + (TOK - m.avail) \div PerSec(m.count, TOK) ELSE 0 - 1,
+      (* ... and whether this application makes reevaluate() rewrite the node   *)
+      mod |-> \/ act /\ a \in DOMAIN st.susp                       \* past-due suspension popped
+              \/ act /\ needed > 0 /\ alw <= 0 /\ a \notin DOMAIN st.lastw   \* new wait item
+              \/ alw > 0 /\ o = "ok" /\ a \in DOMAIN st.lastw           \* out of the wait list
+              \/ alw > 0 /\ o \in Failing /\ "quiet_suspend" \notin Defects
+              \/ del /\ o = "ok"]
 
 (* answers matter only where there is a call; a bulk delete either works or not *)
 OutFor(a) ==
@@ -136,10 +149,19 @@ Evaluate(o) ==
   /\ LET r == [a \in DOMAIN st.mon |-> EvalApp(a, o[a])]
          keep == {a \in DOMAIN st.susp : a \in DOMAIN st.mon /\ st.susp[a] > st.now}
          failing == {a \in DOMAIN st.mon : r[a].fail}
+         susp1 == [a \in keep \cup failing |->
+                     IF a \in failing THEN st.now + DelayS ELSE st.susp[a]]
+         limited == {a \in DOMAIN st.mon : r[a].wait >= 0}
+         (* `waited.update(suspended)`: what reevaluate() returns *)
+         waited == [a \in limited \cup DOMAIN susp1 |->
+                      IF a \in DOMAIN susp1 THEN susp1[a] ELSE r[a].wait]
+         modified == \/ \E a \in DOMAIN st.susp : a \notin DOMAIN st.mon   \* vanished monitors
+                     \/ \E a \in DOMAIN st.mon : r[a].mod
      IN st' = Step([st EXCEPT
+            !.pub = IF modified THEN waited ELSE @,
+            !.lastw = waited,
             !.mon = [a \in DOMAIN st.mon |-> r[a].mon],
-            !.susp = [a \in keep \cup failing |->
-                        IF a \in failing THEN st.now + DelayS ELSE st.susp[a]],
+            !.susp = susp1,
             !.pend = [a \in Apps |->
                         IF a \in DOMAIN st.mon
                         THEN [create |-> st.pend[a].create + r[a].pcreate,
@@ -174,4 +196,21 @@ InvQuiet == Quiet(Pre, AllCalls(1, AllOk))
 InvRate == \A a \in DOMAIN st.mon :
              st.mon[a].spent <= CapOf(st.mon[a].count, TOK)
                                 + PerSec(st.mon[a].count, TOK) * (st.now - st.mon[a].since)
+
+-----------------------------------------------------------------------------
+(* Extension beyond C20 (DESIGN 5, right-hand column): the bookkeeping the     *)
+(* monitor publishes.  reevaluate() returns `waited` = {rate-limited monitor:  *)
+(* estimated wake-up} updated with the suspension map, and writes it to the    *)
+(* /app-monitors node ONLY when `modified` (a suspension appeared, expired or  *)
+(* lost its monitor; a monitor entered the wait list, or left it by a          *)
+(* successful POST; a delete succeeded).  masterapi.get_appmonitor shows       *)
+(* pub[a] as `suspend_until`.                                                  *)
+(* Guaranteed (invariants): every suspension the monitor holds is published    *)
+(* with its exact until-time; every monitor in the last `waited` is published. *)
+(* NOT guaranteed (InvExtNoStale is violated, see NOTES): an entry disappears  *)
+(* when its cause does - a rate-limited monitor whose instances came back by   *)
+(* other means, or that was deleted, stays listed until the next rewrite.      *)
+InvExtPubSusp == \A a \in DOMAIN st.susp : a \in DOMAIN st.pub /\ st.pub[a] = st.susp[a]
+InvExtWaitedPublished == DOMAIN st.lastw \subseteq DOMAIN st.pub
+InvExtNoStale == DOMAIN st.pub \subseteq DOMAIN st.lastw
 =============================================================================
